@@ -96,11 +96,11 @@ func httpUpgraderRules(c *Ctx, prop string) {
 	}
 	m.Models[ws+".negotiateExtensions"] = func(cl *fold.Call) fold.Val {
 		cl.M.Emit(fold.Effect{Kind: "call", Name: "negotiateExtensions", Args: cl.Args})
-		return fold.Tuple{fold.SymSeq{Name: "exts", Len: fold.Range(0, 10)}, errChoice(cl.M, fmt.Sprintf("negotiate#%d.err", cl.Seq), "negotiate-error")}
+		return fold.Tuple{fold.SymSeq{Name: fmt.Sprintf("exts#%d", cl.Seq), Len: fold.Range(0, 10)}, errChoice(cl.M, fmt.Sprintf("negotiate#%d.err", cl.Seq), "negotiate-error")}
 	}
 	m.Models[ws+".btsSelectExtensions"] = func(cl *fold.Call) fold.Val {
 		cl.M.Emit(fold.Effect{Kind: "call", Name: "selectExtensions", Args: cl.Args})
-		return fold.Tuple{fold.SymSeq{Name: "exts", Len: fold.Range(0, 10)}, fold.Bool(cl.M.Choose(fmt.Sprintf("extsel#%d.ok", cl.Seq), 2) == 1)}
+		return fold.Tuple{fold.SymSeq{Name: fmt.Sprintf("exts#%d", cl.Seq), Len: fold.Range(0, 10)}, fold.Bool(cl.M.Choose(fmt.Sprintf("extsel#%d.ok", cl.Seq), 2) == 1)}
 	}
 	m.Models[ws+".httpWriteResponseError"] = func(cl *fold.Call) fold.Val {
 		cl.M.Emit(fold.Effect{Kind: "call", Name: "WriteError", Args: cl.Args})
@@ -305,6 +305,9 @@ func httpUpgraderRules(c *Ctx, prop string) {
 				problems = append(problems, "the handshake data sent ("+fold.Show(wu[0].Args[2])+") differs from the one returned ("+fold.Show(ret[2])+") "+desc)
 			}
 			if hs, ok := ret[2].(fold.Struct); ok && len(hs.F) == 2 {
+				for _, why := range extensionAccumulation(p, hs.F[1]) {
+					problems = append(problems, why+" "+desc)
+				}
 				wantProto := `""`
 				for i := 1; i <= 3 && wantProto == `""`; i++ {
 					if p.Chose(fmt.Sprintf("select#%d", i)) == 1 {
